@@ -48,6 +48,7 @@ variables idx \in FirstSet,
           la = <<>>,         \* one token of look-ahead (Tokenizer::peek), if taken
           ret = <<>>,        \* return value of the last procedure
           err = FALSE,
+          etag = "",        \* which Error variant the parser reports (informational: no listed property fixes it)
           result = <<>>,
           done = FALSE,
           depth = 0,         \* Parser::depth
@@ -96,7 +97,7 @@ procedure enter()
 begin
 En: depth := depth + 1;
     maxdepth := IF depth > maxdepth THEN depth ELSE maxdepth;
-    if depth > MaxDepth then err := TRUE; end if;
+    if depth > MaxDepth then err := TRUE; etag := "NestingTooDeep"; end if;
 EnR: return;
 end procedure;
 
@@ -149,7 +150,7 @@ T0r:   return;
        \* parse_function: next(); expect("("); ...
        name := cur[2];
        call advance();
-F1:    if ~ExpectOk(cur, "(") then err := TRUE; return; end if;
+F1:    if ~ExpectOk(cur, "(") then err := TRUE; etag := "ExpectedOpNotExist"; return; end if;
 F2:    call advance();
 F3:    if IsText(cur, "delim", ")") then
           ret := <<"call", name, <<>>>>; call advance();
@@ -165,7 +166,7 @@ F6r:      return;
        elsif ExpectOk(cur, ",") then
           call advance();
 F7:       goto F4;
-       else err := TRUE;
+       else err := TRUE; etag := "ExpectedOpNotExist";
 F8:       return;
        end if;
     elsif cur[1] = "op" then
@@ -178,7 +179,7 @@ U2:    if ~err then ret := <<"un", op, ret>>; end if;
        call advance();
 L1:    call parse_expression();
 L2:    if err then return;
-       elsif ~IsText(cur, "delim", ")") then err := TRUE; return;
+       elsif ~IsText(cur, "delim", ")") then err := TRUE; etag := "NoCloseDelim"; return;
        else call advance();
 L3:      return;
        end if;
@@ -190,7 +191,7 @@ B1:    steps := steps + 1;
           if ExpectOk(cur, "]") then
              ret := <<"list", items>>; call advance();
 B1r:         return;
-          else err := TRUE; return;
+          else err := TRUE; etag := "ExpectedOpNotExist"; return;
           end if;
        end if;
 B2:    call parse_expression();
@@ -199,7 +200,7 @@ B4:    items := Append(items, ret);
        if IsText(cur, "delim", "]") then goto B1;
        elsif ExpectOk(cur, ",") then call advance();
 B5:       goto B1;
-       else err := TRUE;
+       else err := TRUE; etag := "ExpectedOpNotExist";
 B6:       return;
        end if;
     elsif IsText(cur, "delim", "{") then
@@ -209,12 +210,12 @@ M1:    steps := steps + 1;
           if ExpectOk(cur, "}") then
              ret := <<"map", items>>; call advance();
 M1r:         return;
-          else err := TRUE; return;
+          else err := TRUE; etag := "ExpectedOpNotExist"; return;
           end if;
        end if;
 M2:    call parse_expression();
 M3:    if err then return;
-       elsif ~ExpectOk(cur, ":") then err := TRUE; return;
+       elsif ~ExpectOk(cur, ":") then err := TRUE; etag := "ExpectedOpNotExist"; return;
        else key := ret; call advance();
        end if;
 M4:    call parse_expression();
@@ -223,12 +224,14 @@ M6:    items := Append(items, <<key, ret>>);
        if IsText(cur, "delim", "}") then goto M1;
        elsif ExpectOk(cur, ",") then call advance();
 M7:       goto M1;
-       else err := TRUE;
+       else err := TRUE; etag := "ExpectedOpNotExist";
 M8:       return;
        end if;
     else
        \* closing delimiter, comma, semicolon or end of input where an operand is required
-       err := TRUE; return;
+       err := TRUE;
+       etag := IF cur = EOFTOK THEN "UnexpectedEOF" ELSE IF cur[1] = "delim" THEN "NoOpenDelim" ELSE "UnexpectedToken";
+       return;
     end if;
 end procedure;
 
@@ -246,7 +249,7 @@ Q0b:     if err then return; end if;
 Q0:      call advance();
 Q1:      call parse_expression();
 Q2:      if err then return;
-         elsif ~ExpectOk(cur, ":") then err := TRUE; return;
+         elsif ~ExpectOk(cur, ":") then err := TRUE; etag := "ExpectedOpNotExist"; return;
          else a := ret; call advance();
          end if;
 Q3:      call parse_expression();
@@ -257,7 +260,7 @@ O2:   if NotGate then
          \* repaired: look through `not`, decide on the operator's own precedence
          if IsText(cur, "op", "not") then
             call peek();
-N1:         if ~IsInfixT(la[1]) then err := TRUE; return; end if;
+N1:         if ~IsInfixT(la[1]) then err := TRUE; etag := "ExpectBinOpToken"; return; end if;
 N2:         optok := la[1]; isnot := TRUE;
          else
             optok := cur; isnot := FALSE;
@@ -267,7 +270,7 @@ N2:         optok := la[1]; isnot := TRUE;
          if IsText(cur, "op", "not") then
             pendingnot := TRUE;
             call advance();
-N3:         if ~IsInfixT(cur) then err := TRUE; return; end if;
+N3:         if ~IsInfixT(cur) then err := TRUE; etag := "ExpectBinOpToken"; return; end if;
 N4:         goto O0;
          else
             optok := cur; isnot := pendingnot;
@@ -299,26 +302,26 @@ end procedure;
 process main = 1
 begin
 D0: while idx <= last do
-      consumed := <<>>; cur := NOTOK; la := <<>>; ret := <<>>; err := FALSE; result := <<>>; done := FALSE;
+      consumed := <<>>; cur := NOTOK; la := <<>>; ret := <<>>; err := FALSE; etag := ""; result := <<>>; done := FALSE;
       depth := 0; maxdepth := 0; steps := 0;
 M:    call parse_stmt();
-Fin:  assert Report(idx, SelectSeq(consumed \o la, LAMBDA x : x # EOFTOK), ~err, result);
+Fin:  assert Report(idx, SelectSeq(consumed \o la, LAMBDA x : x # EOFTOK), ~err, IF err THEN <<"error", etag>> ELSE result);
 Nxt:  idx := idx + 1;
     end while;
 End: skip;
 end process;
 end algorithm; *)
-\* BEGIN TRANSLATION (chksum(pcal) = "c3ba0a7b" /\ chksum(tla) = "3afa210f")
-\* Procedure variable tk of procedure advance at line 68 col 12 changed to tk_
-\* Procedure variable op of procedure parse_token at line 143 col 39 changed to op_
+\* BEGIN TRANSLATION (chksum(pcal) = "51b62589" /\ chksum(tla) = "115e91bc")
+\* Procedure variable tk of procedure advance at line 69 col 12 changed to tk_
+\* Procedure variable op of procedure parse_token at line 144 col 39 changed to op_
 CONSTANT defaultInitValue
-VARIABLES pc, idx, last, consumed, cur, la, ret, err, result, done, depth, 
-          maxdepth, steps, stack, tk_, tk, ans, items, key, op_, name, min, 
-          lhs, isnot, op, rbp, a, optok, base, pendingnot
+VARIABLES pc, idx, last, consumed, cur, la, ret, err, etag, result, done, 
+          depth, maxdepth, steps, stack, tk_, tk, ans, items, key, op_, name, 
+          min, lhs, isnot, op, rbp, a, optok, base, pendingnot
 
-vars == << pc, idx, last, consumed, cur, la, ret, err, result, done, depth, 
-           maxdepth, steps, stack, tk_, tk, ans, items, key, op_, name, min, 
-           lhs, isnot, op, rbp, a, optok, base, pendingnot >>
+vars == << pc, idx, last, consumed, cur, la, ret, err, etag, result, done, 
+           depth, maxdepth, steps, stack, tk_, tk, ans, items, key, op_, name, 
+           min, lhs, isnot, op, rbp, a, optok, base, pendingnot >>
 
 ProcSet == {1}
 
@@ -330,6 +333,7 @@ Init == (* Global variables *)
         /\ la = <<>>
         /\ ret = <<>>
         /\ err = FALSE
+        /\ etag = ""
         /\ result = <<>>
         /\ done = FALSE
         /\ depth = 0
@@ -376,7 +380,7 @@ Adv(self) == /\ pc[self] = "Adv"
                         /\ consumed' = Append(consumed, tk_'[self])
                         /\ la' = la
              /\ pc' = [pc EXCEPT ![self] = "AdvR"]
-             /\ UNCHANGED << idx, last, ret, err, result, done, depth, 
+             /\ UNCHANGED << idx, last, ret, err, etag, result, done, depth, 
                              maxdepth, stack, tk, ans, items, key, op_, name, 
                              min, lhs, isnot, op, rbp, a, optok, base, 
                              pendingnot >>
@@ -385,10 +389,10 @@ AdvR(self) == /\ pc[self] = "AdvR"
               /\ pc' = [pc EXCEPT ![self] = Head(stack[self]).pc]
               /\ tk_' = [tk_ EXCEPT ![self] = Head(stack[self]).tk_]
               /\ stack' = [stack EXCEPT ![self] = Tail(stack[self])]
-              /\ UNCHANGED << idx, last, consumed, cur, la, ret, err, result, 
-                              done, depth, maxdepth, steps, tk, ans, items, 
-                              key, op_, name, min, lhs, isnot, op, rbp, a, 
-                              optok, base, pendingnot >>
+              /\ UNCHANGED << idx, last, consumed, cur, la, ret, err, etag, 
+                              result, done, depth, maxdepth, steps, tk, ans, 
+                              items, key, op_, name, min, lhs, isnot, op, rbp, 
+                              a, optok, base, pendingnot >>
 
 advance(self) == Adv(self) \/ AdvR(self)
 
@@ -404,19 +408,19 @@ Pk(self) == /\ pc[self] = "Pk"
                   ELSE /\ TRUE
                        /\ UNCHANGED << la, tk >>
             /\ pc' = [pc EXCEPT ![self] = "PkR"]
-            /\ UNCHANGED << idx, last, consumed, cur, ret, err, result, done, 
-                            depth, maxdepth, steps, stack, tk_, ans, items, 
-                            key, op_, name, min, lhs, isnot, op, rbp, a, optok, 
-                            base, pendingnot >>
+            /\ UNCHANGED << idx, last, consumed, cur, ret, err, etag, result, 
+                            done, depth, maxdepth, steps, stack, tk_, ans, 
+                            items, key, op_, name, min, lhs, isnot, op, rbp, a, 
+                            optok, base, pendingnot >>
 
 PkR(self) == /\ pc[self] = "PkR"
              /\ pc' = [pc EXCEPT ![self] = Head(stack[self]).pc]
              /\ tk' = [tk EXCEPT ![self] = Head(stack[self]).tk]
              /\ stack' = [stack EXCEPT ![self] = Tail(stack[self])]
-             /\ UNCHANGED << idx, last, consumed, cur, la, ret, err, result, 
-                             done, depth, maxdepth, steps, tk_, ans, items, 
-                             key, op_, name, min, lhs, isnot, op, rbp, a, 
-                             optok, base, pendingnot >>
+             /\ UNCHANGED << idx, last, consumed, cur, la, ret, err, etag, 
+                             result, done, depth, maxdepth, steps, tk_, ans, 
+                             items, key, op_, name, min, lhs, isnot, op, rbp, 
+                             a, optok, base, pendingnot >>
 
 peek(self) == Pk(self) \/ PkR(self)
 
@@ -425,8 +429,9 @@ En(self) == /\ pc[self] = "En"
             /\ maxdepth' = (IF depth' > maxdepth THEN depth' ELSE maxdepth)
             /\ IF depth' > MaxDepth
                   THEN /\ err' = TRUE
+                       /\ etag' = "NestingTooDeep"
                   ELSE /\ TRUE
-                       /\ err' = err
+                       /\ UNCHANGED << err, etag >>
             /\ pc' = [pc EXCEPT ![self] = "EnR"]
             /\ UNCHANGED << idx, last, consumed, cur, la, ret, result, done, 
                             steps, stack, tk_, tk, ans, items, key, op_, name, 
@@ -436,10 +441,10 @@ En(self) == /\ pc[self] = "En"
 EnR(self) == /\ pc[self] = "EnR"
              /\ pc' = [pc EXCEPT ![self] = Head(stack[self]).pc]
              /\ stack' = [stack EXCEPT ![self] = Tail(stack[self])]
-             /\ UNCHANGED << idx, last, consumed, cur, la, ret, err, result, 
-                             done, depth, maxdepth, steps, tk_, tk, ans, items, 
-                             key, op_, name, min, lhs, isnot, op, rbp, a, 
-                             optok, base, pendingnot >>
+             /\ UNCHANGED << idx, last, consumed, cur, la, ret, err, etag, 
+                             result, done, depth, maxdepth, steps, tk_, tk, 
+                             ans, items, key, op_, name, min, lhs, isnot, op, 
+                             rbp, a, optok, base, pendingnot >>
 
 enter(self) == En(self) \/ EnR(self)
 
@@ -450,10 +455,10 @@ S0(self) == /\ pc[self] = "S0"
                                                  \o stack[self]]
             /\ tk_' = [tk_ EXCEPT ![self] = NOTOK]
             /\ pc' = [pc EXCEPT ![self] = "Adv"]
-            /\ UNCHANGED << idx, last, consumed, cur, la, ret, err, result, 
-                            done, depth, maxdepth, steps, tk, ans, items, key, 
-                            op_, name, min, lhs, isnot, op, rbp, a, optok, 
-                            base, pendingnot >>
+            /\ UNCHANGED << idx, last, consumed, cur, la, ret, err, etag, 
+                            result, done, depth, maxdepth, steps, tk, ans, 
+                            items, key, op_, name, min, lhs, isnot, op, rbp, a, 
+                            optok, base, pendingnot >>
 
 S1(self) == /\ pc[self] = "S1"
             /\ IF cur # EOFTOK /\ ~err
@@ -464,9 +469,9 @@ S1(self) == /\ pc[self] = "S1"
                        /\ pc' = [pc EXCEPT ![self] = "E0"]
                   ELSE /\ pc' = [pc EXCEPT ![self] = "S3"]
                        /\ UNCHANGED << steps, stack >>
-            /\ UNCHANGED << idx, last, consumed, cur, la, ret, err, result, 
-                            done, depth, maxdepth, tk_, tk, ans, items, key, 
-                            op_, name, min, lhs, isnot, op, rbp, a, optok, 
+            /\ UNCHANGED << idx, last, consumed, cur, la, ret, err, etag, 
+                            result, done, depth, maxdepth, tk_, tk, ans, items, 
+                            key, op_, name, min, lhs, isnot, op, rbp, a, optok, 
                             base, pendingnot >>
 
 S2(self) == /\ pc[self] = "S2"
@@ -483,10 +488,10 @@ S2(self) == /\ pc[self] = "S2"
                                   /\ UNCHANGED << stack, tk_ >>
                   ELSE /\ pc' = [pc EXCEPT ![self] = "S1"]
                        /\ UNCHANGED << stack, tk_, ans >>
-            /\ UNCHANGED << idx, last, consumed, cur, la, ret, err, result, 
-                            done, depth, maxdepth, steps, tk, items, key, op_, 
-                            name, min, lhs, isnot, op, rbp, a, optok, base, 
-                            pendingnot >>
+            /\ UNCHANGED << idx, last, consumed, cur, la, ret, err, etag, 
+                            result, done, depth, maxdepth, steps, tk, items, 
+                            key, op_, name, min, lhs, isnot, op, rbp, a, optok, 
+                            base, pendingnot >>
 
 S3(self) == /\ pc[self] = "S3"
             /\ IF ~err
@@ -497,9 +502,9 @@ S3(self) == /\ pc[self] = "S3"
             /\ pc' = [pc EXCEPT ![self] = Head(stack[self]).pc]
             /\ ans' = [ans EXCEPT ![self] = Head(stack[self]).ans]
             /\ stack' = [stack EXCEPT ![self] = Tail(stack[self])]
-            /\ UNCHANGED << idx, last, consumed, cur, la, ret, err, depth, 
-                            maxdepth, steps, tk_, tk, items, key, op_, name, 
-                            min, lhs, isnot, op, rbp, a, optok, base, 
+            /\ UNCHANGED << idx, last, consumed, cur, la, ret, err, etag, 
+                            depth, maxdepth, steps, tk_, tk, items, key, op_, 
+                            name, min, lhs, isnot, op, rbp, a, optok, base, 
                             pendingnot >>
 
 parse_stmt(self) == S0(self) \/ S1(self) \/ S2(self) \/ S3(self)
@@ -509,10 +514,10 @@ E0(self) == /\ pc[self] = "E0"
                                                      pc        |->  "E1" ] >>
                                                  \o stack[self]]
             /\ pc' = [pc EXCEPT ![self] = "P0"]
-            /\ UNCHANGED << idx, last, consumed, cur, la, ret, err, result, 
-                            done, depth, maxdepth, steps, tk_, tk, ans, items, 
-                            key, op_, name, min, lhs, isnot, op, rbp, a, optok, 
-                            base, pendingnot >>
+            /\ UNCHANGED << idx, last, consumed, cur, la, ret, err, etag, 
+                            result, done, depth, maxdepth, steps, tk_, tk, ans, 
+                            items, key, op_, name, min, lhs, isnot, op, rbp, a, 
+                            optok, base, pendingnot >>
 
 E1(self) == /\ pc[self] = "E1"
             /\ IF ~err
@@ -541,17 +546,17 @@ E1(self) == /\ pc[self] = "E1"
                   ELSE /\ pc' = [pc EXCEPT ![self] = "E2"]
                        /\ UNCHANGED << stack, min, lhs, isnot, op, rbp, a, 
                                        optok, base, pendingnot >>
-            /\ UNCHANGED << idx, last, consumed, cur, la, ret, err, result, 
-                            done, depth, maxdepth, steps, tk_, tk, ans, items, 
-                            key, op_, name >>
+            /\ UNCHANGED << idx, last, consumed, cur, la, ret, err, etag, 
+                            result, done, depth, maxdepth, steps, tk_, tk, ans, 
+                            items, key, op_, name >>
 
 E2(self) == /\ pc[self] = "E2"
             /\ pc' = [pc EXCEPT ![self] = Head(stack[self]).pc]
             /\ stack' = [stack EXCEPT ![self] = Tail(stack[self])]
-            /\ UNCHANGED << idx, last, consumed, cur, la, ret, err, result, 
-                            done, depth, maxdepth, steps, tk_, tk, ans, items, 
-                            key, op_, name, min, lhs, isnot, op, rbp, a, optok, 
-                            base, pendingnot >>
+            /\ UNCHANGED << idx, last, consumed, cur, la, ret, err, etag, 
+                            result, done, depth, maxdepth, steps, tk_, tk, ans, 
+                            items, key, op_, name, min, lhs, isnot, op, rbp, a, 
+                            optok, base, pendingnot >>
 
 parse_expression(self) == E0(self) \/ E1(self) \/ E2(self)
 
@@ -560,10 +565,10 @@ P0(self) == /\ pc[self] = "P0"
                                                      pc        |->  "P0a" ] >>
                                                  \o stack[self]]
             /\ pc' = [pc EXCEPT ![self] = "En"]
-            /\ UNCHANGED << idx, last, consumed, cur, la, ret, err, result, 
-                            done, depth, maxdepth, steps, tk_, tk, ans, items, 
-                            key, op_, name, min, lhs, isnot, op, rbp, a, optok, 
-                            base, pendingnot >>
+            /\ UNCHANGED << idx, last, consumed, cur, la, ret, err, etag, 
+                            result, done, depth, maxdepth, steps, tk_, tk, ans, 
+                            items, key, op_, name, min, lhs, isnot, op, rbp, a, 
+                            optok, base, pendingnot >>
 
 P0a(self) == /\ pc[self] = "P0a"
              /\ IF err
@@ -571,10 +576,10 @@ P0a(self) == /\ pc[self] = "P0a"
                         /\ stack' = [stack EXCEPT ![self] = Tail(stack[self])]
                    ELSE /\ pc' = [pc EXCEPT ![self] = "P0b"]
                         /\ stack' = stack
-             /\ UNCHANGED << idx, last, consumed, cur, la, ret, err, result, 
-                             done, depth, maxdepth, steps, tk_, tk, ans, items, 
-                             key, op_, name, min, lhs, isnot, op, rbp, a, 
-                             optok, base, pendingnot >>
+             /\ UNCHANGED << idx, last, consumed, cur, la, ret, err, etag, 
+                             result, done, depth, maxdepth, steps, tk_, tk, 
+                             ans, items, key, op_, name, min, lhs, isnot, op, 
+                             rbp, a, optok, base, pendingnot >>
 
 P0b(self) == /\ pc[self] = "P0b"
              /\ stack' = [stack EXCEPT ![self] = << [ procedure |->  "parse_token",
@@ -589,9 +594,10 @@ P0b(self) == /\ pc[self] = "P0b"
              /\ op_' = [op_ EXCEPT ![self] = ""]
              /\ name' = [name EXCEPT ![self] = ""]
              /\ pc' = [pc EXCEPT ![self] = "T0"]
-             /\ UNCHANGED << idx, last, consumed, cur, la, ret, err, result, 
-                             done, depth, maxdepth, steps, tk_, tk, ans, min, 
-                             lhs, isnot, op, rbp, a, optok, base, pendingnot >>
+             /\ UNCHANGED << idx, last, consumed, cur, la, ret, err, etag, 
+                             result, done, depth, maxdepth, steps, tk_, tk, 
+                             ans, min, lhs, isnot, op, rbp, a, optok, base, 
+                             pendingnot >>
 
 P1(self) == /\ pc[self] = "P1"
             /\ IF ~err
@@ -608,18 +614,18 @@ P1(self) == /\ pc[self] = "P1"
                                   /\ UNCHANGED << ret, stack, tk_ >>
                   ELSE /\ pc' = [pc EXCEPT ![self] = "P2"]
                        /\ UNCHANGED << ret, depth, stack, tk_ >>
-            /\ UNCHANGED << idx, last, consumed, cur, la, err, result, done, 
-                            maxdepth, steps, tk, ans, items, key, op_, name, 
-                            min, lhs, isnot, op, rbp, a, optok, base, 
+            /\ UNCHANGED << idx, last, consumed, cur, la, err, etag, result, 
+                            done, maxdepth, steps, tk, ans, items, key, op_, 
+                            name, min, lhs, isnot, op, rbp, a, optok, base, 
                             pendingnot >>
 
 P2(self) == /\ pc[self] = "P2"
             /\ pc' = [pc EXCEPT ![self] = Head(stack[self]).pc]
             /\ stack' = [stack EXCEPT ![self] = Tail(stack[self])]
-            /\ UNCHANGED << idx, last, consumed, cur, la, ret, err, result, 
-                            done, depth, maxdepth, steps, tk_, tk, ans, items, 
-                            key, op_, name, min, lhs, isnot, op, rbp, a, optok, 
-                            base, pendingnot >>
+            /\ UNCHANGED << idx, last, consumed, cur, la, ret, err, etag, 
+                            result, done, depth, maxdepth, steps, tk_, tk, ans, 
+                            items, key, op_, name, min, lhs, isnot, op, rbp, a, 
+                            optok, base, pendingnot >>
 
 parse_primary(self) == P0(self) \/ P0a(self) \/ P0b(self) \/ P1(self)
                           \/ P2(self)
@@ -633,7 +639,7 @@ T0(self) == /\ pc[self] = "T0"
                                                             \o stack[self]]
                        /\ tk_' = [tk_ EXCEPT ![self] = NOTOK]
                        /\ pc' = [pc EXCEPT ![self] = "Adv"]
-                       /\ UNCHANGED << err, items, key, op_, name >>
+                       /\ UNCHANGED << err, etag, items, key, op_, name >>
                   ELSE /\ IF cur[1] = "fun"
                              THEN /\ name' = [name EXCEPT ![self] = cur[2]]
                                   /\ stack' = [stack EXCEPT ![self] = << [ procedure |->  "advance",
@@ -642,7 +648,7 @@ T0(self) == /\ pc[self] = "T0"
                                                                        \o stack[self]]
                                   /\ tk_' = [tk_ EXCEPT ![self] = NOTOK]
                                   /\ pc' = [pc EXCEPT ![self] = "Adv"]
-                                  /\ UNCHANGED << err, items, key, op_ >>
+                                  /\ UNCHANGED << err, etag, items, key, op_ >>
                              ELSE /\ IF cur[1] = "op"
                                         THEN /\ op_' = [op_ EXCEPT ![self] = cur[2]]
                                              /\ stack' = [stack EXCEPT ![self] = << [ procedure |->  "advance",
@@ -651,8 +657,8 @@ T0(self) == /\ pc[self] = "T0"
                                                                                   \o stack[self]]
                                              /\ tk_' = [tk_ EXCEPT ![self] = NOTOK]
                                              /\ pc' = [pc EXCEPT ![self] = "Adv"]
-                                             /\ UNCHANGED << err, items, key, 
-                                                             name >>
+                                             /\ UNCHANGED << err, etag, items, 
+                                                             key, name >>
                                         ELSE /\ IF IsText(cur, "delim", "(")
                                                    THEN /\ stack' = [stack EXCEPT ![self] = << [ procedure |->  "advance",
                                                                                                  pc        |->  "L1",
@@ -661,6 +667,7 @@ T0(self) == /\ pc[self] = "T0"
                                                         /\ tk_' = [tk_ EXCEPT ![self] = NOTOK]
                                                         /\ pc' = [pc EXCEPT ![self] = "Adv"]
                                                         /\ UNCHANGED << err, 
+                                                                        etag, 
                                                                         items, 
                                                                         key, 
                                                                         op_, 
@@ -673,6 +680,7 @@ T0(self) == /\ pc[self] = "T0"
                                                                    /\ tk_' = [tk_ EXCEPT ![self] = NOTOK]
                                                                    /\ pc' = [pc EXCEPT ![self] = "Adv"]
                                                                    /\ UNCHANGED << err, 
+                                                                                   etag, 
                                                                                    items, 
                                                                                    key, 
                                                                                    op_, 
@@ -685,11 +693,13 @@ T0(self) == /\ pc[self] = "T0"
                                                                               /\ tk_' = [tk_ EXCEPT ![self] = NOTOK]
                                                                               /\ pc' = [pc EXCEPT ![self] = "Adv"]
                                                                               /\ UNCHANGED << err, 
+                                                                                              etag, 
                                                                                               items, 
                                                                                               key, 
                                                                                               op_, 
                                                                                               name >>
                                                                          ELSE /\ err' = TRUE
+                                                                              /\ etag' = (IF cur = EOFTOK THEN "UnexpectedEOF" ELSE IF cur[1] = "delim" THEN "NoOpenDelim" ELSE "UnexpectedToken")
                                                                               /\ pc' = [pc EXCEPT ![self] = Head(stack[self]).pc]
                                                                               /\ items' = [items EXCEPT ![self] = Head(stack[self]).items]
                                                                               /\ key' = [key EXCEPT ![self] = Head(stack[self]).key]
@@ -709,13 +719,15 @@ T0r(self) == /\ pc[self] = "T0r"
              /\ op_' = [op_ EXCEPT ![self] = Head(stack[self]).op_]
              /\ name' = [name EXCEPT ![self] = Head(stack[self]).name]
              /\ stack' = [stack EXCEPT ![self] = Tail(stack[self])]
-             /\ UNCHANGED << idx, last, consumed, cur, la, ret, err, result, 
-                             done, depth, maxdepth, steps, tk_, tk, ans, min, 
-                             lhs, isnot, op, rbp, a, optok, base, pendingnot >>
+             /\ UNCHANGED << idx, last, consumed, cur, la, ret, err, etag, 
+                             result, done, depth, maxdepth, steps, tk_, tk, 
+                             ans, min, lhs, isnot, op, rbp, a, optok, base, 
+                             pendingnot >>
 
 F1(self) == /\ pc[self] = "F1"
             /\ IF ~ExpectOk(cur, "(")
                   THEN /\ err' = TRUE
+                       /\ etag' = "ExpectedOpNotExist"
                        /\ pc' = [pc EXCEPT ![self] = Head(stack[self]).pc]
                        /\ items' = [items EXCEPT ![self] = Head(stack[self]).items]
                        /\ key' = [key EXCEPT ![self] = Head(stack[self]).key]
@@ -723,7 +735,7 @@ F1(self) == /\ pc[self] = "F1"
                        /\ name' = [name EXCEPT ![self] = Head(stack[self]).name]
                        /\ stack' = [stack EXCEPT ![self] = Tail(stack[self])]
                   ELSE /\ pc' = [pc EXCEPT ![self] = "F2"]
-                       /\ UNCHANGED << err, stack, items, key, op_, name >>
+                       /\ UNCHANGED << err, etag, stack, items, key, op_, name >>
             /\ UNCHANGED << idx, last, consumed, cur, la, ret, result, done, 
                             depth, maxdepth, steps, tk_, tk, ans, min, lhs, 
                             isnot, op, rbp, a, optok, base, pendingnot >>
@@ -735,10 +747,10 @@ F2(self) == /\ pc[self] = "F2"
                                                  \o stack[self]]
             /\ tk_' = [tk_ EXCEPT ![self] = NOTOK]
             /\ pc' = [pc EXCEPT ![self] = "Adv"]
-            /\ UNCHANGED << idx, last, consumed, cur, la, ret, err, result, 
-                            done, depth, maxdepth, steps, tk, ans, items, key, 
-                            op_, name, min, lhs, isnot, op, rbp, a, optok, 
-                            base, pendingnot >>
+            /\ UNCHANGED << idx, last, consumed, cur, la, ret, err, etag, 
+                            result, done, depth, maxdepth, steps, tk, ans, 
+                            items, key, op_, name, min, lhs, isnot, op, rbp, a, 
+                            optok, base, pendingnot >>
 
 F3(self) == /\ pc[self] = "F3"
             /\ IF IsText(cur, "delim", ")")
@@ -751,10 +763,10 @@ F3(self) == /\ pc[self] = "F3"
                        /\ pc' = [pc EXCEPT ![self] = "Adv"]
                   ELSE /\ pc' = [pc EXCEPT ![self] = "F4"]
                        /\ UNCHANGED << ret, stack, tk_ >>
-            /\ UNCHANGED << idx, last, consumed, cur, la, err, result, done, 
-                            depth, maxdepth, steps, tk, ans, items, key, op_, 
-                            name, min, lhs, isnot, op, rbp, a, optok, base, 
-                            pendingnot >>
+            /\ UNCHANGED << idx, last, consumed, cur, la, err, etag, result, 
+                            done, depth, maxdepth, steps, tk, ans, items, key, 
+                            op_, name, min, lhs, isnot, op, rbp, a, optok, 
+                            base, pendingnot >>
 
 F3r(self) == /\ pc[self] = "F3r"
              /\ pc' = [pc EXCEPT ![self] = Head(stack[self]).pc]
@@ -763,9 +775,10 @@ F3r(self) == /\ pc[self] = "F3r"
              /\ op_' = [op_ EXCEPT ![self] = Head(stack[self]).op_]
              /\ name' = [name EXCEPT ![self] = Head(stack[self]).name]
              /\ stack' = [stack EXCEPT ![self] = Tail(stack[self])]
-             /\ UNCHANGED << idx, last, consumed, cur, la, ret, err, result, 
-                             done, depth, maxdepth, steps, tk_, tk, ans, min, 
-                             lhs, isnot, op, rbp, a, optok, base, pendingnot >>
+             /\ UNCHANGED << idx, last, consumed, cur, la, ret, err, etag, 
+                             result, done, depth, maxdepth, steps, tk_, tk, 
+                             ans, min, lhs, isnot, op, rbp, a, optok, base, 
+                             pendingnot >>
 
 F4(self) == /\ pc[self] = "F4"
             /\ steps' = steps + 1
@@ -773,9 +786,9 @@ F4(self) == /\ pc[self] = "F4"
                                                      pc        |->  "F5" ] >>
                                                  \o stack[self]]
             /\ pc' = [pc EXCEPT ![self] = "E0"]
-            /\ UNCHANGED << idx, last, consumed, cur, la, ret, err, result, 
-                            done, depth, maxdepth, tk_, tk, ans, items, key, 
-                            op_, name, min, lhs, isnot, op, rbp, a, optok, 
+            /\ UNCHANGED << idx, last, consumed, cur, la, ret, err, etag, 
+                            result, done, depth, maxdepth, tk_, tk, ans, items, 
+                            key, op_, name, min, lhs, isnot, op, rbp, a, optok, 
                             base, pendingnot >>
 
 F5(self) == /\ pc[self] = "F5"
@@ -788,9 +801,10 @@ F5(self) == /\ pc[self] = "F5"
                        /\ stack' = [stack EXCEPT ![self] = Tail(stack[self])]
                   ELSE /\ pc' = [pc EXCEPT ![self] = "F6"]
                        /\ UNCHANGED << stack, items, key, op_, name >>
-            /\ UNCHANGED << idx, last, consumed, cur, la, ret, err, result, 
-                            done, depth, maxdepth, steps, tk_, tk, ans, min, 
-                            lhs, isnot, op, rbp, a, optok, base, pendingnot >>
+            /\ UNCHANGED << idx, last, consumed, cur, la, ret, err, etag, 
+                            result, done, depth, maxdepth, steps, tk_, tk, ans, 
+                            min, lhs, isnot, op, rbp, a, optok, base, 
+                            pendingnot >>
 
 F6(self) == /\ pc[self] = "F6"
             /\ items' = [items EXCEPT ![self] = Append(items[self], ret)]
@@ -802,7 +816,7 @@ F6(self) == /\ pc[self] = "F6"
                                                             \o stack[self]]
                        /\ tk_' = [tk_ EXCEPT ![self] = NOTOK]
                        /\ pc' = [pc EXCEPT ![self] = "Adv"]
-                       /\ err' = err
+                       /\ UNCHANGED << err, etag >>
                   ELSE /\ IF ExpectOk(cur, ",")
                              THEN /\ stack' = [stack EXCEPT ![self] = << [ procedure |->  "advance",
                                                                            pc        |->  "F7",
@@ -810,8 +824,9 @@ F6(self) == /\ pc[self] = "F6"
                                                                        \o stack[self]]
                                   /\ tk_' = [tk_ EXCEPT ![self] = NOTOK]
                                   /\ pc' = [pc EXCEPT ![self] = "Adv"]
-                                  /\ err' = err
+                                  /\ UNCHANGED << err, etag >>
                              ELSE /\ err' = TRUE
+                                  /\ etag' = "ExpectedOpNotExist"
                                   /\ pc' = [pc EXCEPT ![self] = "F8"]
                                   /\ UNCHANGED << stack, tk_ >>
                        /\ ret' = ret
@@ -826,16 +841,17 @@ F6r(self) == /\ pc[self] = "F6r"
              /\ op_' = [op_ EXCEPT ![self] = Head(stack[self]).op_]
              /\ name' = [name EXCEPT ![self] = Head(stack[self]).name]
              /\ stack' = [stack EXCEPT ![self] = Tail(stack[self])]
-             /\ UNCHANGED << idx, last, consumed, cur, la, ret, err, result, 
-                             done, depth, maxdepth, steps, tk_, tk, ans, min, 
-                             lhs, isnot, op, rbp, a, optok, base, pendingnot >>
+             /\ UNCHANGED << idx, last, consumed, cur, la, ret, err, etag, 
+                             result, done, depth, maxdepth, steps, tk_, tk, 
+                             ans, min, lhs, isnot, op, rbp, a, optok, base, 
+                             pendingnot >>
 
 F7(self) == /\ pc[self] = "F7"
             /\ pc' = [pc EXCEPT ![self] = "F4"]
-            /\ UNCHANGED << idx, last, consumed, cur, la, ret, err, result, 
-                            done, depth, maxdepth, steps, stack, tk_, tk, ans, 
-                            items, key, op_, name, min, lhs, isnot, op, rbp, a, 
-                            optok, base, pendingnot >>
+            /\ UNCHANGED << idx, last, consumed, cur, la, ret, err, etag, 
+                            result, done, depth, maxdepth, steps, stack, tk_, 
+                            tk, ans, items, key, op_, name, min, lhs, isnot, 
+                            op, rbp, a, optok, base, pendingnot >>
 
 F8(self) == /\ pc[self] = "F8"
             /\ pc' = [pc EXCEPT ![self] = Head(stack[self]).pc]
@@ -844,19 +860,20 @@ F8(self) == /\ pc[self] = "F8"
             /\ op_' = [op_ EXCEPT ![self] = Head(stack[self]).op_]
             /\ name' = [name EXCEPT ![self] = Head(stack[self]).name]
             /\ stack' = [stack EXCEPT ![self] = Tail(stack[self])]
-            /\ UNCHANGED << idx, last, consumed, cur, la, ret, err, result, 
-                            done, depth, maxdepth, steps, tk_, tk, ans, min, 
-                            lhs, isnot, op, rbp, a, optok, base, pendingnot >>
+            /\ UNCHANGED << idx, last, consumed, cur, la, ret, err, etag, 
+                            result, done, depth, maxdepth, steps, tk_, tk, ans, 
+                            min, lhs, isnot, op, rbp, a, optok, base, 
+                            pendingnot >>
 
 U1(self) == /\ pc[self] = "U1"
             /\ stack' = [stack EXCEPT ![self] = << [ procedure |->  "parse_primary",
                                                      pc        |->  "U2" ] >>
                                                  \o stack[self]]
             /\ pc' = [pc EXCEPT ![self] = "P0"]
-            /\ UNCHANGED << idx, last, consumed, cur, la, ret, err, result, 
-                            done, depth, maxdepth, steps, tk_, tk, ans, items, 
-                            key, op_, name, min, lhs, isnot, op, rbp, a, optok, 
-                            base, pendingnot >>
+            /\ UNCHANGED << idx, last, consumed, cur, la, ret, err, etag, 
+                            result, done, depth, maxdepth, steps, tk_, tk, ans, 
+                            items, key, op_, name, min, lhs, isnot, op, rbp, a, 
+                            optok, base, pendingnot >>
 
 U2(self) == /\ pc[self] = "U2"
             /\ IF ~err
@@ -869,19 +886,19 @@ U2(self) == /\ pc[self] = "U2"
             /\ op_' = [op_ EXCEPT ![self] = Head(stack[self]).op_]
             /\ name' = [name EXCEPT ![self] = Head(stack[self]).name]
             /\ stack' = [stack EXCEPT ![self] = Tail(stack[self])]
-            /\ UNCHANGED << idx, last, consumed, cur, la, err, result, done, 
-                            depth, maxdepth, steps, tk_, tk, ans, min, lhs, 
-                            isnot, op, rbp, a, optok, base, pendingnot >>
+            /\ UNCHANGED << idx, last, consumed, cur, la, err, etag, result, 
+                            done, depth, maxdepth, steps, tk_, tk, ans, min, 
+                            lhs, isnot, op, rbp, a, optok, base, pendingnot >>
 
 L1(self) == /\ pc[self] = "L1"
             /\ stack' = [stack EXCEPT ![self] = << [ procedure |->  "parse_expression",
                                                      pc        |->  "L2" ] >>
                                                  \o stack[self]]
             /\ pc' = [pc EXCEPT ![self] = "E0"]
-            /\ UNCHANGED << idx, last, consumed, cur, la, ret, err, result, 
-                            done, depth, maxdepth, steps, tk_, tk, ans, items, 
-                            key, op_, name, min, lhs, isnot, op, rbp, a, optok, 
-                            base, pendingnot >>
+            /\ UNCHANGED << idx, last, consumed, cur, la, ret, err, etag, 
+                            result, done, depth, maxdepth, steps, tk_, tk, ans, 
+                            items, key, op_, name, min, lhs, isnot, op, rbp, a, 
+                            optok, base, pendingnot >>
 
 L2(self) == /\ pc[self] = "L2"
             /\ IF err
@@ -891,9 +908,10 @@ L2(self) == /\ pc[self] = "L2"
                        /\ op_' = [op_ EXCEPT ![self] = Head(stack[self]).op_]
                        /\ name' = [name EXCEPT ![self] = Head(stack[self]).name]
                        /\ stack' = [stack EXCEPT ![self] = Tail(stack[self])]
-                       /\ UNCHANGED << err, tk_ >>
+                       /\ UNCHANGED << err, etag, tk_ >>
                   ELSE /\ IF ~IsText(cur, "delim", ")")
                              THEN /\ err' = TRUE
+                                  /\ etag' = "NoCloseDelim"
                                   /\ pc' = [pc EXCEPT ![self] = Head(stack[self]).pc]
                                   /\ items' = [items EXCEPT ![self] = Head(stack[self]).items]
                                   /\ key' = [key EXCEPT ![self] = Head(stack[self]).key]
@@ -907,7 +925,8 @@ L2(self) == /\ pc[self] = "L2"
                                                                        \o stack[self]]
                                   /\ tk_' = [tk_ EXCEPT ![self] = NOTOK]
                                   /\ pc' = [pc EXCEPT ![self] = "Adv"]
-                                  /\ UNCHANGED << err, items, key, op_, name >>
+                                  /\ UNCHANGED << err, etag, items, key, op_, 
+                                                  name >>
             /\ UNCHANGED << idx, last, consumed, cur, la, ret, result, done, 
                             depth, maxdepth, steps, tk, ans, min, lhs, isnot, 
                             op, rbp, a, optok, base, pendingnot >>
@@ -919,9 +938,10 @@ L3(self) == /\ pc[self] = "L3"
             /\ op_' = [op_ EXCEPT ![self] = Head(stack[self]).op_]
             /\ name' = [name EXCEPT ![self] = Head(stack[self]).name]
             /\ stack' = [stack EXCEPT ![self] = Tail(stack[self])]
-            /\ UNCHANGED << idx, last, consumed, cur, la, ret, err, result, 
-                            done, depth, maxdepth, steps, tk_, tk, ans, min, 
-                            lhs, isnot, op, rbp, a, optok, base, pendingnot >>
+            /\ UNCHANGED << idx, last, consumed, cur, la, ret, err, etag, 
+                            result, done, depth, maxdepth, steps, tk_, tk, ans, 
+                            min, lhs, isnot, op, rbp, a, optok, base, 
+                            pendingnot >>
 
 B1(self) == /\ pc[self] = "B1"
             /\ steps' = steps + 1
@@ -934,8 +954,10 @@ B1(self) == /\ pc[self] = "B1"
                                                                        \o stack[self]]
                                   /\ tk_' = [tk_ EXCEPT ![self] = NOTOK]
                                   /\ pc' = [pc EXCEPT ![self] = "Adv"]
-                                  /\ UNCHANGED << err, items, key, op_, name >>
+                                  /\ UNCHANGED << err, etag, items, key, op_, 
+                                                  name >>
                              ELSE /\ err' = TRUE
+                                  /\ etag' = "ExpectedOpNotExist"
                                   /\ pc' = [pc EXCEPT ![self] = Head(stack[self]).pc]
                                   /\ items' = [items EXCEPT ![self] = Head(stack[self]).items]
                                   /\ key' = [key EXCEPT ![self] = Head(stack[self]).key]
@@ -944,8 +966,8 @@ B1(self) == /\ pc[self] = "B1"
                                   /\ stack' = [stack EXCEPT ![self] = Tail(stack[self])]
                                   /\ UNCHANGED << ret, tk_ >>
                   ELSE /\ pc' = [pc EXCEPT ![self] = "B2"]
-                       /\ UNCHANGED << ret, err, stack, tk_, items, key, op_, 
-                                       name >>
+                       /\ UNCHANGED << ret, err, etag, stack, tk_, items, key, 
+                                       op_, name >>
             /\ UNCHANGED << idx, last, consumed, cur, la, result, done, depth, 
                             maxdepth, tk, ans, min, lhs, isnot, op, rbp, a, 
                             optok, base, pendingnot >>
@@ -957,19 +979,20 @@ B1r(self) == /\ pc[self] = "B1r"
              /\ op_' = [op_ EXCEPT ![self] = Head(stack[self]).op_]
              /\ name' = [name EXCEPT ![self] = Head(stack[self]).name]
              /\ stack' = [stack EXCEPT ![self] = Tail(stack[self])]
-             /\ UNCHANGED << idx, last, consumed, cur, la, ret, err, result, 
-                             done, depth, maxdepth, steps, tk_, tk, ans, min, 
-                             lhs, isnot, op, rbp, a, optok, base, pendingnot >>
+             /\ UNCHANGED << idx, last, consumed, cur, la, ret, err, etag, 
+                             result, done, depth, maxdepth, steps, tk_, tk, 
+                             ans, min, lhs, isnot, op, rbp, a, optok, base, 
+                             pendingnot >>
 
 B2(self) == /\ pc[self] = "B2"
             /\ stack' = [stack EXCEPT ![self] = << [ procedure |->  "parse_expression",
                                                      pc        |->  "B3" ] >>
                                                  \o stack[self]]
             /\ pc' = [pc EXCEPT ![self] = "E0"]
-            /\ UNCHANGED << idx, last, consumed, cur, la, ret, err, result, 
-                            done, depth, maxdepth, steps, tk_, tk, ans, items, 
-                            key, op_, name, min, lhs, isnot, op, rbp, a, optok, 
-                            base, pendingnot >>
+            /\ UNCHANGED << idx, last, consumed, cur, la, ret, err, etag, 
+                            result, done, depth, maxdepth, steps, tk_, tk, ans, 
+                            items, key, op_, name, min, lhs, isnot, op, rbp, a, 
+                            optok, base, pendingnot >>
 
 B3(self) == /\ pc[self] = "B3"
             /\ IF err
@@ -981,15 +1004,16 @@ B3(self) == /\ pc[self] = "B3"
                        /\ stack' = [stack EXCEPT ![self] = Tail(stack[self])]
                   ELSE /\ pc' = [pc EXCEPT ![self] = "B4"]
                        /\ UNCHANGED << stack, items, key, op_, name >>
-            /\ UNCHANGED << idx, last, consumed, cur, la, ret, err, result, 
-                            done, depth, maxdepth, steps, tk_, tk, ans, min, 
-                            lhs, isnot, op, rbp, a, optok, base, pendingnot >>
+            /\ UNCHANGED << idx, last, consumed, cur, la, ret, err, etag, 
+                            result, done, depth, maxdepth, steps, tk_, tk, ans, 
+                            min, lhs, isnot, op, rbp, a, optok, base, 
+                            pendingnot >>
 
 B4(self) == /\ pc[self] = "B4"
             /\ items' = [items EXCEPT ![self] = Append(items[self], ret)]
             /\ IF IsText(cur, "delim", "]")
                   THEN /\ pc' = [pc EXCEPT ![self] = "B1"]
-                       /\ UNCHANGED << err, stack, tk_ >>
+                       /\ UNCHANGED << err, etag, stack, tk_ >>
                   ELSE /\ IF ExpectOk(cur, ",")
                              THEN /\ stack' = [stack EXCEPT ![self] = << [ procedure |->  "advance",
                                                                            pc        |->  "B5",
@@ -997,8 +1021,9 @@ B4(self) == /\ pc[self] = "B4"
                                                                        \o stack[self]]
                                   /\ tk_' = [tk_ EXCEPT ![self] = NOTOK]
                                   /\ pc' = [pc EXCEPT ![self] = "Adv"]
-                                  /\ err' = err
+                                  /\ UNCHANGED << err, etag >>
                              ELSE /\ err' = TRUE
+                                  /\ etag' = "ExpectedOpNotExist"
                                   /\ pc' = [pc EXCEPT ![self] = "B6"]
                                   /\ UNCHANGED << stack, tk_ >>
             /\ UNCHANGED << idx, last, consumed, cur, la, ret, result, done, 
@@ -1008,10 +1033,10 @@ B4(self) == /\ pc[self] = "B4"
 
 B5(self) == /\ pc[self] = "B5"
             /\ pc' = [pc EXCEPT ![self] = "B1"]
-            /\ UNCHANGED << idx, last, consumed, cur, la, ret, err, result, 
-                            done, depth, maxdepth, steps, stack, tk_, tk, ans, 
-                            items, key, op_, name, min, lhs, isnot, op, rbp, a, 
-                            optok, base, pendingnot >>
+            /\ UNCHANGED << idx, last, consumed, cur, la, ret, err, etag, 
+                            result, done, depth, maxdepth, steps, stack, tk_, 
+                            tk, ans, items, key, op_, name, min, lhs, isnot, 
+                            op, rbp, a, optok, base, pendingnot >>
 
 B6(self) == /\ pc[self] = "B6"
             /\ pc' = [pc EXCEPT ![self] = Head(stack[self]).pc]
@@ -1020,9 +1045,10 @@ B6(self) == /\ pc[self] = "B6"
             /\ op_' = [op_ EXCEPT ![self] = Head(stack[self]).op_]
             /\ name' = [name EXCEPT ![self] = Head(stack[self]).name]
             /\ stack' = [stack EXCEPT ![self] = Tail(stack[self])]
-            /\ UNCHANGED << idx, last, consumed, cur, la, ret, err, result, 
-                            done, depth, maxdepth, steps, tk_, tk, ans, min, 
-                            lhs, isnot, op, rbp, a, optok, base, pendingnot >>
+            /\ UNCHANGED << idx, last, consumed, cur, la, ret, err, etag, 
+                            result, done, depth, maxdepth, steps, tk_, tk, ans, 
+                            min, lhs, isnot, op, rbp, a, optok, base, 
+                            pendingnot >>
 
 M1(self) == /\ pc[self] = "M1"
             /\ steps' = steps + 1
@@ -1035,8 +1061,10 @@ M1(self) == /\ pc[self] = "M1"
                                                                        \o stack[self]]
                                   /\ tk_' = [tk_ EXCEPT ![self] = NOTOK]
                                   /\ pc' = [pc EXCEPT ![self] = "Adv"]
-                                  /\ UNCHANGED << err, items, key, op_, name >>
+                                  /\ UNCHANGED << err, etag, items, key, op_, 
+                                                  name >>
                              ELSE /\ err' = TRUE
+                                  /\ etag' = "ExpectedOpNotExist"
                                   /\ pc' = [pc EXCEPT ![self] = Head(stack[self]).pc]
                                   /\ items' = [items EXCEPT ![self] = Head(stack[self]).items]
                                   /\ key' = [key EXCEPT ![self] = Head(stack[self]).key]
@@ -1045,8 +1073,8 @@ M1(self) == /\ pc[self] = "M1"
                                   /\ stack' = [stack EXCEPT ![self] = Tail(stack[self])]
                                   /\ UNCHANGED << ret, tk_ >>
                   ELSE /\ pc' = [pc EXCEPT ![self] = "M2"]
-                       /\ UNCHANGED << ret, err, stack, tk_, items, key, op_, 
-                                       name >>
+                       /\ UNCHANGED << ret, err, etag, stack, tk_, items, key, 
+                                       op_, name >>
             /\ UNCHANGED << idx, last, consumed, cur, la, result, done, depth, 
                             maxdepth, tk, ans, min, lhs, isnot, op, rbp, a, 
                             optok, base, pendingnot >>
@@ -1058,19 +1086,20 @@ M1r(self) == /\ pc[self] = "M1r"
              /\ op_' = [op_ EXCEPT ![self] = Head(stack[self]).op_]
              /\ name' = [name EXCEPT ![self] = Head(stack[self]).name]
              /\ stack' = [stack EXCEPT ![self] = Tail(stack[self])]
-             /\ UNCHANGED << idx, last, consumed, cur, la, ret, err, result, 
-                             done, depth, maxdepth, steps, tk_, tk, ans, min, 
-                             lhs, isnot, op, rbp, a, optok, base, pendingnot >>
+             /\ UNCHANGED << idx, last, consumed, cur, la, ret, err, etag, 
+                             result, done, depth, maxdepth, steps, tk_, tk, 
+                             ans, min, lhs, isnot, op, rbp, a, optok, base, 
+                             pendingnot >>
 
 M2(self) == /\ pc[self] = "M2"
             /\ stack' = [stack EXCEPT ![self] = << [ procedure |->  "parse_expression",
                                                      pc        |->  "M3" ] >>
                                                  \o stack[self]]
             /\ pc' = [pc EXCEPT ![self] = "E0"]
-            /\ UNCHANGED << idx, last, consumed, cur, la, ret, err, result, 
-                            done, depth, maxdepth, steps, tk_, tk, ans, items, 
-                            key, op_, name, min, lhs, isnot, op, rbp, a, optok, 
-                            base, pendingnot >>
+            /\ UNCHANGED << idx, last, consumed, cur, la, ret, err, etag, 
+                            result, done, depth, maxdepth, steps, tk_, tk, ans, 
+                            items, key, op_, name, min, lhs, isnot, op, rbp, a, 
+                            optok, base, pendingnot >>
 
 M3(self) == /\ pc[self] = "M3"
             /\ IF err
@@ -1080,9 +1109,10 @@ M3(self) == /\ pc[self] = "M3"
                        /\ op_' = [op_ EXCEPT ![self] = Head(stack[self]).op_]
                        /\ name' = [name EXCEPT ![self] = Head(stack[self]).name]
                        /\ stack' = [stack EXCEPT ![self] = Tail(stack[self])]
-                       /\ UNCHANGED << err, tk_ >>
+                       /\ UNCHANGED << err, etag, tk_ >>
                   ELSE /\ IF ~ExpectOk(cur, ":")
                              THEN /\ err' = TRUE
+                                  /\ etag' = "ExpectedOpNotExist"
                                   /\ pc' = [pc EXCEPT ![self] = Head(stack[self]).pc]
                                   /\ items' = [items EXCEPT ![self] = Head(stack[self]).items]
                                   /\ key' = [key EXCEPT ![self] = Head(stack[self]).key]
@@ -1097,7 +1127,7 @@ M3(self) == /\ pc[self] = "M3"
                                                                        \o stack[self]]
                                   /\ tk_' = [tk_ EXCEPT ![self] = NOTOK]
                                   /\ pc' = [pc EXCEPT ![self] = "Adv"]
-                                  /\ UNCHANGED << err, items, op_, name >>
+                                  /\ UNCHANGED << err, etag, items, op_, name >>
             /\ UNCHANGED << idx, last, consumed, cur, la, ret, result, done, 
                             depth, maxdepth, steps, tk, ans, min, lhs, isnot, 
                             op, rbp, a, optok, base, pendingnot >>
@@ -1107,10 +1137,10 @@ M4(self) == /\ pc[self] = "M4"
                                                      pc        |->  "M5" ] >>
                                                  \o stack[self]]
             /\ pc' = [pc EXCEPT ![self] = "E0"]
-            /\ UNCHANGED << idx, last, consumed, cur, la, ret, err, result, 
-                            done, depth, maxdepth, steps, tk_, tk, ans, items, 
-                            key, op_, name, min, lhs, isnot, op, rbp, a, optok, 
-                            base, pendingnot >>
+            /\ UNCHANGED << idx, last, consumed, cur, la, ret, err, etag, 
+                            result, done, depth, maxdepth, steps, tk_, tk, ans, 
+                            items, key, op_, name, min, lhs, isnot, op, rbp, a, 
+                            optok, base, pendingnot >>
 
 M5(self) == /\ pc[self] = "M5"
             /\ IF err
@@ -1122,15 +1152,16 @@ M5(self) == /\ pc[self] = "M5"
                        /\ stack' = [stack EXCEPT ![self] = Tail(stack[self])]
                   ELSE /\ pc' = [pc EXCEPT ![self] = "M6"]
                        /\ UNCHANGED << stack, items, key, op_, name >>
-            /\ UNCHANGED << idx, last, consumed, cur, la, ret, err, result, 
-                            done, depth, maxdepth, steps, tk_, tk, ans, min, 
-                            lhs, isnot, op, rbp, a, optok, base, pendingnot >>
+            /\ UNCHANGED << idx, last, consumed, cur, la, ret, err, etag, 
+                            result, done, depth, maxdepth, steps, tk_, tk, ans, 
+                            min, lhs, isnot, op, rbp, a, optok, base, 
+                            pendingnot >>
 
 M6(self) == /\ pc[self] = "M6"
             /\ items' = [items EXCEPT ![self] = Append(items[self], <<key[self], ret>>)]
             /\ IF IsText(cur, "delim", "}")
                   THEN /\ pc' = [pc EXCEPT ![self] = "M1"]
-                       /\ UNCHANGED << err, stack, tk_ >>
+                       /\ UNCHANGED << err, etag, stack, tk_ >>
                   ELSE /\ IF ExpectOk(cur, ",")
                              THEN /\ stack' = [stack EXCEPT ![self] = << [ procedure |->  "advance",
                                                                            pc        |->  "M7",
@@ -1138,8 +1169,9 @@ M6(self) == /\ pc[self] = "M6"
                                                                        \o stack[self]]
                                   /\ tk_' = [tk_ EXCEPT ![self] = NOTOK]
                                   /\ pc' = [pc EXCEPT ![self] = "Adv"]
-                                  /\ err' = err
+                                  /\ UNCHANGED << err, etag >>
                              ELSE /\ err' = TRUE
+                                  /\ etag' = "ExpectedOpNotExist"
                                   /\ pc' = [pc EXCEPT ![self] = "M8"]
                                   /\ UNCHANGED << stack, tk_ >>
             /\ UNCHANGED << idx, last, consumed, cur, la, ret, result, done, 
@@ -1149,10 +1181,10 @@ M6(self) == /\ pc[self] = "M6"
 
 M7(self) == /\ pc[self] = "M7"
             /\ pc' = [pc EXCEPT ![self] = "M1"]
-            /\ UNCHANGED << idx, last, consumed, cur, la, ret, err, result, 
-                            done, depth, maxdepth, steps, stack, tk_, tk, ans, 
-                            items, key, op_, name, min, lhs, isnot, op, rbp, a, 
-                            optok, base, pendingnot >>
+            /\ UNCHANGED << idx, last, consumed, cur, la, ret, err, etag, 
+                            result, done, depth, maxdepth, steps, stack, tk_, 
+                            tk, ans, items, key, op_, name, min, lhs, isnot, 
+                            op, rbp, a, optok, base, pendingnot >>
 
 M8(self) == /\ pc[self] = "M8"
             /\ pc' = [pc EXCEPT ![self] = Head(stack[self]).pc]
@@ -1161,9 +1193,10 @@ M8(self) == /\ pc[self] = "M8"
             /\ op_' = [op_ EXCEPT ![self] = Head(stack[self]).op_]
             /\ name' = [name EXCEPT ![self] = Head(stack[self]).name]
             /\ stack' = [stack EXCEPT ![self] = Tail(stack[self])]
-            /\ UNCHANGED << idx, last, consumed, cur, la, ret, err, result, 
-                            done, depth, maxdepth, steps, tk_, tk, ans, min, 
-                            lhs, isnot, op, rbp, a, optok, base, pendingnot >>
+            /\ UNCHANGED << idx, last, consumed, cur, la, ret, err, etag, 
+                            result, done, depth, maxdepth, steps, tk_, tk, ans, 
+                            min, lhs, isnot, op, rbp, a, optok, base, 
+                            pendingnot >>
 
 parse_token(self) == T0(self) \/ T0r(self) \/ F1(self) \/ F2(self)
                         \/ F3(self) \/ F3r(self) \/ F4(self) \/ F5(self)
@@ -1178,10 +1211,10 @@ parse_token(self) == T0(self) \/ T0r(self) \/ F1(self) \/ F2(self)
 O00(self) == /\ pc[self] = "O00"
              /\ base' = [base EXCEPT ![self] = depth]
              /\ pc' = [pc EXCEPT ![self] = "O0"]
-             /\ UNCHANGED << idx, last, consumed, cur, la, ret, err, result, 
-                             done, depth, maxdepth, steps, stack, tk_, tk, ans, 
-                             items, key, op_, name, min, lhs, isnot, op, rbp, 
-                             a, optok, pendingnot >>
+             /\ UNCHANGED << idx, last, consumed, cur, la, ret, err, etag, 
+                             result, done, depth, maxdepth, steps, stack, tk_, 
+                             tk, ans, items, key, op_, name, min, lhs, isnot, 
+                             op, rbp, a, optok, pendingnot >>
 
 O0(self) == /\ pc[self] = "O0"
             /\ steps' = steps + 1
@@ -1202,8 +1235,9 @@ O0(self) == /\ pc[self] = "O0"
                   ELSE /\ pc' = [pc EXCEPT ![self] = "O1"]
                        /\ UNCHANGED << ret, depth, stack, min, lhs, isnot, op, 
                                        rbp, a, optok, base, pendingnot >>
-            /\ UNCHANGED << idx, last, consumed, cur, la, err, result, done, 
-                            maxdepth, tk_, tk, ans, items, key, op_, name >>
+            /\ UNCHANGED << idx, last, consumed, cur, la, err, etag, result, 
+                            done, maxdepth, tk_, tk, ans, items, key, op_, 
+                            name >>
 
 O1(self) == /\ pc[self] = "O1"
             /\ IF IsText(cur, "op", "?") /\ ~(~NotGate /\ pendingnot[self])
@@ -1228,19 +1262,19 @@ O1(self) == /\ pc[self] = "O1"
                   ELSE /\ pc' = [pc EXCEPT ![self] = "O2"]
                        /\ UNCHANGED << ret, depth, stack, min, lhs, isnot, op, 
                                        rbp, a, optok, base, pendingnot >>
-            /\ UNCHANGED << idx, last, consumed, cur, la, err, result, done, 
-                            maxdepth, steps, tk_, tk, ans, items, key, op_, 
-                            name >>
+            /\ UNCHANGED << idx, last, consumed, cur, la, err, etag, result, 
+                            done, maxdepth, steps, tk_, tk, ans, items, key, 
+                            op_, name >>
 
 Q0a(self) == /\ pc[self] = "Q0a"
              /\ stack' = [stack EXCEPT ![self] = << [ procedure |->  "enter",
                                                       pc        |->  "Q0b" ] >>
                                                   \o stack[self]]
              /\ pc' = [pc EXCEPT ![self] = "En"]
-             /\ UNCHANGED << idx, last, consumed, cur, la, ret, err, result, 
-                             done, depth, maxdepth, steps, tk_, tk, ans, items, 
-                             key, op_, name, min, lhs, isnot, op, rbp, a, 
-                             optok, base, pendingnot >>
+             /\ UNCHANGED << idx, last, consumed, cur, la, ret, err, etag, 
+                             result, done, depth, maxdepth, steps, tk_, tk, 
+                             ans, items, key, op_, name, min, lhs, isnot, op, 
+                             rbp, a, optok, base, pendingnot >>
 
 Q0b(self) == /\ pc[self] = "Q0b"
              /\ IF err
@@ -1258,9 +1292,9 @@ Q0b(self) == /\ pc[self] = "Q0b"
                    ELSE /\ pc' = [pc EXCEPT ![self] = "Q0"]
                         /\ UNCHANGED << stack, min, lhs, isnot, op, rbp, a, 
                                         optok, base, pendingnot >>
-             /\ UNCHANGED << idx, last, consumed, cur, la, ret, err, result, 
-                             done, depth, maxdepth, steps, tk_, tk, ans, items, 
-                             key, op_, name >>
+             /\ UNCHANGED << idx, last, consumed, cur, la, ret, err, etag, 
+                             result, done, depth, maxdepth, steps, tk_, tk, 
+                             ans, items, key, op_, name >>
 
 Q0(self) == /\ pc[self] = "Q0"
             /\ stack' = [stack EXCEPT ![self] = << [ procedure |->  "advance",
@@ -1269,20 +1303,20 @@ Q0(self) == /\ pc[self] = "Q0"
                                                  \o stack[self]]
             /\ tk_' = [tk_ EXCEPT ![self] = NOTOK]
             /\ pc' = [pc EXCEPT ![self] = "Adv"]
-            /\ UNCHANGED << idx, last, consumed, cur, la, ret, err, result, 
-                            done, depth, maxdepth, steps, tk, ans, items, key, 
-                            op_, name, min, lhs, isnot, op, rbp, a, optok, 
-                            base, pendingnot >>
+            /\ UNCHANGED << idx, last, consumed, cur, la, ret, err, etag, 
+                            result, done, depth, maxdepth, steps, tk, ans, 
+                            items, key, op_, name, min, lhs, isnot, op, rbp, a, 
+                            optok, base, pendingnot >>
 
 Q1(self) == /\ pc[self] = "Q1"
             /\ stack' = [stack EXCEPT ![self] = << [ procedure |->  "parse_expression",
                                                      pc        |->  "Q2" ] >>
                                                  \o stack[self]]
             /\ pc' = [pc EXCEPT ![self] = "E0"]
-            /\ UNCHANGED << idx, last, consumed, cur, la, ret, err, result, 
-                            done, depth, maxdepth, steps, tk_, tk, ans, items, 
-                            key, op_, name, min, lhs, isnot, op, rbp, a, optok, 
-                            base, pendingnot >>
+            /\ UNCHANGED << idx, last, consumed, cur, la, ret, err, etag, 
+                            result, done, depth, maxdepth, steps, tk_, tk, ans, 
+                            items, key, op_, name, min, lhs, isnot, op, rbp, a, 
+                            optok, base, pendingnot >>
 
 Q2(self) == /\ pc[self] = "Q2"
             /\ IF err
@@ -1297,9 +1331,10 @@ Q2(self) == /\ pc[self] = "Q2"
                        /\ min' = [min EXCEPT ![self] = Head(stack[self]).min]
                        /\ lhs' = [lhs EXCEPT ![self] = Head(stack[self]).lhs]
                        /\ stack' = [stack EXCEPT ![self] = Tail(stack[self])]
-                       /\ UNCHANGED << err, tk_ >>
+                       /\ UNCHANGED << err, etag, tk_ >>
                   ELSE /\ IF ~ExpectOk(cur, ":")
                              THEN /\ err' = TRUE
+                                  /\ etag' = "ExpectedOpNotExist"
                                   /\ pc' = [pc EXCEPT ![self] = Head(stack[self]).pc]
                                   /\ isnot' = [isnot EXCEPT ![self] = Head(stack[self]).isnot]
                                   /\ op' = [op EXCEPT ![self] = Head(stack[self]).op]
@@ -1319,8 +1354,9 @@ Q2(self) == /\ pc[self] = "Q2"
                                                                        \o stack[self]]
                                   /\ tk_' = [tk_ EXCEPT ![self] = NOTOK]
                                   /\ pc' = [pc EXCEPT ![self] = "Adv"]
-                                  /\ UNCHANGED << err, min, lhs, isnot, op, 
-                                                  rbp, optok, base, pendingnot >>
+                                  /\ UNCHANGED << err, etag, min, lhs, isnot, 
+                                                  op, rbp, optok, base, 
+                                                  pendingnot >>
             /\ UNCHANGED << idx, last, consumed, cur, la, ret, result, done, 
                             depth, maxdepth, steps, tk, ans, items, key, op_, 
                             name >>
@@ -1330,10 +1366,10 @@ Q3(self) == /\ pc[self] = "Q3"
                                                      pc        |->  "Q4" ] >>
                                                  \o stack[self]]
             /\ pc' = [pc EXCEPT ![self] = "E0"]
-            /\ UNCHANGED << idx, last, consumed, cur, la, ret, err, result, 
-                            done, depth, maxdepth, steps, tk_, tk, ans, items, 
-                            key, op_, name, min, lhs, isnot, op, rbp, a, optok, 
-                            base, pendingnot >>
+            /\ UNCHANGED << idx, last, consumed, cur, la, ret, err, etag, 
+                            result, done, depth, maxdepth, steps, tk_, tk, ans, 
+                            items, key, op_, name, min, lhs, isnot, op, rbp, a, 
+                            optok, base, pendingnot >>
 
 Q4(self) == /\ pc[self] = "Q4"
             /\ IF ~err
@@ -1352,9 +1388,9 @@ Q4(self) == /\ pc[self] = "Q4"
             /\ min' = [min EXCEPT ![self] = Head(stack[self]).min]
             /\ lhs' = [lhs EXCEPT ![self] = Head(stack[self]).lhs]
             /\ stack' = [stack EXCEPT ![self] = Tail(stack[self])]
-            /\ UNCHANGED << idx, last, consumed, cur, la, err, result, done, 
-                            maxdepth, steps, tk_, tk, ans, items, key, op_, 
-                            name >>
+            /\ UNCHANGED << idx, last, consumed, cur, la, err, etag, result, 
+                            done, maxdepth, steps, tk_, tk, ans, items, key, 
+                            op_, name >>
 
 O2(self) == /\ pc[self] = "O2"
             /\ IF NotGate
@@ -1385,13 +1421,14 @@ O2(self) == /\ pc[self] = "O2"
                                   /\ pc' = [pc EXCEPT ![self] = "O3"]
                                   /\ UNCHANGED << stack, tk_, pendingnot >>
                        /\ tk' = tk
-            /\ UNCHANGED << idx, last, consumed, cur, la, ret, err, result, 
-                            done, depth, maxdepth, steps, ans, items, key, op_, 
-                            name, min, lhs, op, rbp, a, base >>
+            /\ UNCHANGED << idx, last, consumed, cur, la, ret, err, etag, 
+                            result, done, depth, maxdepth, steps, ans, items, 
+                            key, op_, name, min, lhs, op, rbp, a, base >>
 
 N1(self) == /\ pc[self] = "N1"
             /\ IF ~IsInfixT(la[1])
                   THEN /\ err' = TRUE
+                       /\ etag' = "ExpectBinOpToken"
                        /\ pc' = [pc EXCEPT ![self] = Head(stack[self]).pc]
                        /\ isnot' = [isnot EXCEPT ![self] = Head(stack[self]).isnot]
                        /\ op' = [op EXCEPT ![self] = Head(stack[self]).op]
@@ -1404,8 +1441,8 @@ N1(self) == /\ pc[self] = "N1"
                        /\ lhs' = [lhs EXCEPT ![self] = Head(stack[self]).lhs]
                        /\ stack' = [stack EXCEPT ![self] = Tail(stack[self])]
                   ELSE /\ pc' = [pc EXCEPT ![self] = "N2"]
-                       /\ UNCHANGED << err, stack, min, lhs, isnot, op, rbp, a, 
-                                       optok, base, pendingnot >>
+                       /\ UNCHANGED << err, etag, stack, min, lhs, isnot, op, 
+                                       rbp, a, optok, base, pendingnot >>
             /\ UNCHANGED << idx, last, consumed, cur, la, ret, result, done, 
                             depth, maxdepth, steps, tk_, tk, ans, items, key, 
                             op_, name >>
@@ -1414,14 +1451,15 @@ N2(self) == /\ pc[self] = "N2"
             /\ optok' = [optok EXCEPT ![self] = la[1]]
             /\ isnot' = [isnot EXCEPT ![self] = TRUE]
             /\ pc' = [pc EXCEPT ![self] = "O3"]
-            /\ UNCHANGED << idx, last, consumed, cur, la, ret, err, result, 
-                            done, depth, maxdepth, steps, stack, tk_, tk, ans, 
-                            items, key, op_, name, min, lhs, op, rbp, a, base, 
-                            pendingnot >>
+            /\ UNCHANGED << idx, last, consumed, cur, la, ret, err, etag, 
+                            result, done, depth, maxdepth, steps, stack, tk_, 
+                            tk, ans, items, key, op_, name, min, lhs, op, rbp, 
+                            a, base, pendingnot >>
 
 N3(self) == /\ pc[self] = "N3"
             /\ IF ~IsInfixT(cur)
                   THEN /\ err' = TRUE
+                       /\ etag' = "ExpectBinOpToken"
                        /\ pc' = [pc EXCEPT ![self] = Head(stack[self]).pc]
                        /\ isnot' = [isnot EXCEPT ![self] = Head(stack[self]).isnot]
                        /\ op' = [op EXCEPT ![self] = Head(stack[self]).op]
@@ -1434,18 +1472,18 @@ N3(self) == /\ pc[self] = "N3"
                        /\ lhs' = [lhs EXCEPT ![self] = Head(stack[self]).lhs]
                        /\ stack' = [stack EXCEPT ![self] = Tail(stack[self])]
                   ELSE /\ pc' = [pc EXCEPT ![self] = "N4"]
-                       /\ UNCHANGED << err, stack, min, lhs, isnot, op, rbp, a, 
-                                       optok, base, pendingnot >>
+                       /\ UNCHANGED << err, etag, stack, min, lhs, isnot, op, 
+                                       rbp, a, optok, base, pendingnot >>
             /\ UNCHANGED << idx, last, consumed, cur, la, ret, result, done, 
                             depth, maxdepth, steps, tk_, tk, ans, items, key, 
                             op_, name >>
 
 N4(self) == /\ pc[self] = "N4"
             /\ pc' = [pc EXCEPT ![self] = "O0"]
-            /\ UNCHANGED << idx, last, consumed, cur, la, ret, err, result, 
-                            done, depth, maxdepth, steps, stack, tk_, tk, ans, 
-                            items, key, op_, name, min, lhs, isnot, op, rbp, a, 
-                            optok, base, pendingnot >>
+            /\ UNCHANGED << idx, last, consumed, cur, la, ret, err, etag, 
+                            result, done, depth, maxdepth, steps, stack, tk_, 
+                            tk, ans, items, key, op_, name, min, lhs, isnot, 
+                            op, rbp, a, optok, base, pendingnot >>
 
 O3(self) == /\ pc[self] = "O3"
             /\ IF LBP(optok[self]) < min[self]
@@ -1465,9 +1503,9 @@ O3(self) == /\ pc[self] = "O3"
                   ELSE /\ pc' = [pc EXCEPT ![self] = "O4"]
                        /\ UNCHANGED << ret, depth, stack, min, lhs, isnot, op, 
                                        rbp, a, optok, base, pendingnot >>
-            /\ UNCHANGED << idx, last, consumed, cur, la, err, result, done, 
-                            maxdepth, steps, tk_, tk, ans, items, key, op_, 
-                            name >>
+            /\ UNCHANGED << idx, last, consumed, cur, la, err, etag, result, 
+                            done, maxdepth, steps, tk_, tk, ans, items, key, 
+                            op_, name >>
 
 O4(self) == /\ pc[self] = "O4"
             /\ IF NotGate /\ isnot[self]
@@ -1479,10 +1517,10 @@ O4(self) == /\ pc[self] = "O4"
                        /\ pc' = [pc EXCEPT ![self] = "Adv"]
                   ELSE /\ pc' = [pc EXCEPT ![self] = "O5"]
                        /\ UNCHANGED << stack, tk_ >>
-            /\ UNCHANGED << idx, last, consumed, cur, la, ret, err, result, 
-                            done, depth, maxdepth, steps, tk, ans, items, key, 
-                            op_, name, min, lhs, isnot, op, rbp, a, optok, 
-                            base, pendingnot >>
+            /\ UNCHANGED << idx, last, consumed, cur, la, ret, err, etag, 
+                            result, done, depth, maxdepth, steps, tk, ans, 
+                            items, key, op_, name, min, lhs, isnot, op, rbp, a, 
+                            optok, base, pendingnot >>
 
 O5(self) == /\ pc[self] = "O5"
             /\ op' = [op EXCEPT ![self] = cur[2]]
@@ -1491,10 +1529,10 @@ O5(self) == /\ pc[self] = "O5"
                                                      pc        |->  "O5b" ] >>
                                                  \o stack[self]]
             /\ pc' = [pc EXCEPT ![self] = "En"]
-            /\ UNCHANGED << idx, last, consumed, cur, la, ret, err, result, 
-                            done, depth, maxdepth, steps, tk_, tk, ans, items, 
-                            key, op_, name, min, lhs, isnot, a, optok, base, 
-                            pendingnot >>
+            /\ UNCHANGED << idx, last, consumed, cur, la, ret, err, etag, 
+                            result, done, depth, maxdepth, steps, tk_, tk, ans, 
+                            items, key, op_, name, min, lhs, isnot, a, optok, 
+                            base, pendingnot >>
 
 O5b(self) == /\ pc[self] = "O5b"
              /\ IF err
@@ -1512,9 +1550,9 @@ O5b(self) == /\ pc[self] = "O5b"
                    ELSE /\ pc' = [pc EXCEPT ![self] = "O5c"]
                         /\ UNCHANGED << stack, min, lhs, isnot, op, rbp, a, 
                                         optok, base, pendingnot >>
-             /\ UNCHANGED << idx, last, consumed, cur, la, ret, err, result, 
-                             done, depth, maxdepth, steps, tk_, tk, ans, items, 
-                             key, op_, name >>
+             /\ UNCHANGED << idx, last, consumed, cur, la, ret, err, etag, 
+                             result, done, depth, maxdepth, steps, tk_, tk, 
+                             ans, items, key, op_, name >>
 
 O5c(self) == /\ pc[self] = "O5c"
              /\ stack' = [stack EXCEPT ![self] = << [ procedure |->  "advance",
@@ -1523,20 +1561,20 @@ O5c(self) == /\ pc[self] = "O5c"
                                                   \o stack[self]]
              /\ tk_' = [tk_ EXCEPT ![self] = NOTOK]
              /\ pc' = [pc EXCEPT ![self] = "Adv"]
-             /\ UNCHANGED << idx, last, consumed, cur, la, ret, err, result, 
-                             done, depth, maxdepth, steps, tk, ans, items, key, 
-                             op_, name, min, lhs, isnot, op, rbp, a, optok, 
-                             base, pendingnot >>
+             /\ UNCHANGED << idx, last, consumed, cur, la, ret, err, etag, 
+                             result, done, depth, maxdepth, steps, tk, ans, 
+                             items, key, op_, name, min, lhs, isnot, op, rbp, 
+                             a, optok, base, pendingnot >>
 
 O6(self) == /\ pc[self] = "O6"
             /\ stack' = [stack EXCEPT ![self] = << [ procedure |->  "parse_primary",
                                                      pc        |->  "O7" ] >>
                                                  \o stack[self]]
             /\ pc' = [pc EXCEPT ![self] = "P0"]
-            /\ UNCHANGED << idx, last, consumed, cur, la, ret, err, result, 
-                            done, depth, maxdepth, steps, tk_, tk, ans, items, 
-                            key, op_, name, min, lhs, isnot, op, rbp, a, optok, 
-                            base, pendingnot >>
+            /\ UNCHANGED << idx, last, consumed, cur, la, ret, err, etag, 
+                            result, done, depth, maxdepth, steps, tk_, tk, ans, 
+                            items, key, op_, name, min, lhs, isnot, op, rbp, a, 
+                            optok, base, pendingnot >>
 
 O7(self) == /\ pc[self] = "O7"
             /\ IF err
@@ -1554,9 +1592,9 @@ O7(self) == /\ pc[self] = "O7"
                   ELSE /\ pc' = [pc EXCEPT ![self] = "O8"]
                        /\ UNCHANGED << stack, min, lhs, isnot, op, rbp, a, 
                                        optok, base, pendingnot >>
-            /\ UNCHANGED << idx, last, consumed, cur, la, ret, err, result, 
-                            done, depth, maxdepth, steps, tk_, tk, ans, items, 
-                            key, op_, name >>
+            /\ UNCHANGED << idx, last, consumed, cur, la, ret, err, etag, 
+                            result, done, depth, maxdepth, steps, tk_, tk, ans, 
+                            items, key, op_, name >>
 
 O8(self) == /\ pc[self] = "O8"
             /\ IF NotGate /\ IsText(cur, "op", "not")
@@ -1570,18 +1608,18 @@ O8(self) == /\ pc[self] = "O8"
                   ELSE /\ optok' = [optok EXCEPT ![self] = cur]
                        /\ pc' = [pc EXCEPT ![self] = "O9"]
                        /\ UNCHANGED << stack, tk >>
-            /\ UNCHANGED << idx, last, consumed, cur, la, ret, err, result, 
-                            done, depth, maxdepth, steps, tk_, ans, items, key, 
-                            op_, name, min, lhs, isnot, op, rbp, a, base, 
-                            pendingnot >>
+            /\ UNCHANGED << idx, last, consumed, cur, la, ret, err, etag, 
+                            result, done, depth, maxdepth, steps, tk_, ans, 
+                            items, key, op_, name, min, lhs, isnot, op, rbp, a, 
+                            base, pendingnot >>
 
 G1(self) == /\ pc[self] = "G1"
             /\ optok' = [optok EXCEPT ![self] = la[1]]
             /\ pc' = [pc EXCEPT ![self] = "O9"]
-            /\ UNCHANGED << idx, last, consumed, cur, la, ret, err, result, 
-                            done, depth, maxdepth, steps, stack, tk_, tk, ans, 
-                            items, key, op_, name, min, lhs, isnot, op, rbp, a, 
-                            base, pendingnot >>
+            /\ UNCHANGED << idx, last, consumed, cur, la, ret, err, etag, 
+                            result, done, depth, maxdepth, steps, stack, tk_, 
+                            tk, ans, items, key, op_, name, min, lhs, isnot, 
+                            op, rbp, a, base, pendingnot >>
 
 O9(self) == /\ pc[self] = "O9"
             /\ IF IsInfixT(optok[self]) /\ rbp[self] < LBP(optok[self])
@@ -1610,9 +1648,9 @@ O9(self) == /\ pc[self] = "O9"
                   ELSE /\ pc' = [pc EXCEPT ![self] = "O10"]
                        /\ UNCHANGED << stack, min, lhs, isnot, op, rbp, a, 
                                        optok, base, pendingnot >>
-            /\ UNCHANGED << idx, last, consumed, cur, la, ret, err, result, 
-                            done, depth, maxdepth, steps, tk_, tk, ans, items, 
-                            key, op_, name >>
+            /\ UNCHANGED << idx, last, consumed, cur, la, ret, err, etag, 
+                            result, done, depth, maxdepth, steps, tk_, tk, ans, 
+                            items, key, op_, name >>
 
 O10(self) == /\ pc[self] = "O10"
              /\ IF err
@@ -1630,18 +1668,18 @@ O10(self) == /\ pc[self] = "O10"
                    ELSE /\ pc' = [pc EXCEPT ![self] = "O11"]
                         /\ UNCHANGED << stack, min, lhs, isnot, op, rbp, a, 
                                         optok, base, pendingnot >>
-             /\ UNCHANGED << idx, last, consumed, cur, la, ret, err, result, 
-                             done, depth, maxdepth, steps, tk_, tk, ans, items, 
-                             key, op_, name >>
+             /\ UNCHANGED << idx, last, consumed, cur, la, ret, err, etag, 
+                             result, done, depth, maxdepth, steps, tk_, tk, 
+                             ans, items, key, op_, name >>
 
 O11(self) == /\ pc[self] = "O11"
              /\ lhs' = [lhs EXCEPT ![self] = IF isnot[self] THEN <<"un", "not", <<"bin", op[self], lhs[self], ret>>>> ELSE <<"bin", op[self], lhs[self], ret>>]
              /\ pendingnot' = [pendingnot EXCEPT ![self] = FALSE]
              /\ pc' = [pc EXCEPT ![self] = "O0"]
-             /\ UNCHANGED << idx, last, consumed, cur, la, ret, err, result, 
-                             done, depth, maxdepth, steps, stack, tk_, tk, ans, 
-                             items, key, op_, name, min, isnot, op, rbp, a, 
-                             optok, base >>
+             /\ UNCHANGED << idx, last, consumed, cur, la, ret, err, etag, 
+                             result, done, depth, maxdepth, steps, stack, tk_, 
+                             tk, ans, items, key, op_, name, min, isnot, op, 
+                             rbp, a, optok, base >>
 
 parse_op(self) == O00(self) \/ O0(self) \/ O1(self) \/ Q0a(self)
                      \/ Q0b(self) \/ Q0(self) \/ Q1(self) \/ Q2(self)
@@ -1658,6 +1696,7 @@ D0 == /\ pc[1] = "D0"
                  /\ la' = <<>>
                  /\ ret' = <<>>
                  /\ err' = FALSE
+                 /\ etag' = ""
                  /\ result' = <<>>
                  /\ done' = FALSE
                  /\ depth' = 0
@@ -1665,8 +1704,8 @@ D0 == /\ pc[1] = "D0"
                  /\ steps' = 0
                  /\ pc' = [pc EXCEPT ![1] = "M"]
             ELSE /\ pc' = [pc EXCEPT ![1] = "End"]
-                 /\ UNCHANGED << consumed, cur, la, ret, err, result, done, 
-                                 depth, maxdepth, steps >>
+                 /\ UNCHANGED << consumed, cur, la, ret, err, etag, result, 
+                                 done, depth, maxdepth, steps >>
       /\ UNCHANGED << idx, last, stack, tk_, tk, ans, items, key, op_, name, 
                       min, lhs, isnot, op, rbp, a, optok, base, pendingnot >>
 
@@ -1677,34 +1716,35 @@ M == /\ pc[1] = "M"
                                        \o stack[1]]
      /\ ans' = [ans EXCEPT ![1] = <<>>]
      /\ pc' = [pc EXCEPT ![1] = "S0"]
-     /\ UNCHANGED << idx, last, consumed, cur, la, ret, err, result, done, 
-                     depth, maxdepth, steps, tk_, tk, items, key, op_, name, 
-                     min, lhs, isnot, op, rbp, a, optok, base, pendingnot >>
+     /\ UNCHANGED << idx, last, consumed, cur, la, ret, err, etag, result, 
+                     done, depth, maxdepth, steps, tk_, tk, items, key, op_, 
+                     name, min, lhs, isnot, op, rbp, a, optok, base, 
+                     pendingnot >>
 
 Fin == /\ pc[1] = "Fin"
-       /\ Assert(Report(idx, SelectSeq(consumed \o la, LAMBDA x : x # EOFTOK), ~err, result), 
-                 "Failure of assertion at line 305, column 7.")
+       /\ Assert(Report(idx, SelectSeq(consumed \o la, LAMBDA x : x # EOFTOK), ~err, IF err THEN <<"error", etag>> ELSE result), 
+                 "Failure of assertion at line 308, column 7.")
        /\ pc' = [pc EXCEPT ![1] = "Nxt"]
-       /\ UNCHANGED << idx, last, consumed, cur, la, ret, err, result, done, 
-                       depth, maxdepth, steps, stack, tk_, tk, ans, items, key, 
-                       op_, name, min, lhs, isnot, op, rbp, a, optok, base, 
-                       pendingnot >>
+       /\ UNCHANGED << idx, last, consumed, cur, la, ret, err, etag, result, 
+                       done, depth, maxdepth, steps, stack, tk_, tk, ans, 
+                       items, key, op_, name, min, lhs, isnot, op, rbp, a, 
+                       optok, base, pendingnot >>
 
 Nxt == /\ pc[1] = "Nxt"
        /\ idx' = idx + 1
        /\ pc' = [pc EXCEPT ![1] = "D0"]
-       /\ UNCHANGED << last, consumed, cur, la, ret, err, result, done, depth, 
-                       maxdepth, steps, stack, tk_, tk, ans, items, key, op_, 
-                       name, min, lhs, isnot, op, rbp, a, optok, base, 
+       /\ UNCHANGED << last, consumed, cur, la, ret, err, etag, result, done, 
+                       depth, maxdepth, steps, stack, tk_, tk, ans, items, key, 
+                       op_, name, min, lhs, isnot, op, rbp, a, optok, base, 
                        pendingnot >>
 
 End == /\ pc[1] = "End"
        /\ TRUE
        /\ pc' = [pc EXCEPT ![1] = "Done"]
-       /\ UNCHANGED << idx, last, consumed, cur, la, ret, err, result, done, 
-                       depth, maxdepth, steps, stack, tk_, tk, ans, items, key, 
-                       op_, name, min, lhs, isnot, op, rbp, a, optok, base, 
-                       pendingnot >>
+       /\ UNCHANGED << idx, last, consumed, cur, la, ret, err, etag, result, 
+                       done, depth, maxdepth, steps, stack, tk_, tk, ans, 
+                       items, key, op_, name, min, lhs, isnot, op, rbp, a, 
+                       optok, base, pendingnot >>
 
 main == D0 \/ M \/ Fin \/ Nxt \/ End
 
